@@ -241,8 +241,18 @@ def api_plans():
 _plans0 = plans
 
 
+def bp_plans():
+    """populations of ooaofooa classes through bridgepoint.ooaofooa.ModelLoader: one text, several files, directory trees
+    and zip archives (two trees / archives whose members carry the same names among them); see C11 for the schema parts"""
+    from . import c11
+    grows = c11.bp_schemas()
+    obs = metagen.battery(['nav', 'nav', 'sel', 'chk_assoc'], per_step=4)
+    return [{'name': 'bp_%s_load' % name, 'schema': 'ooa_' + name, 'bound': 2, 'model': False, 'obs': obs,
+             'random': c11.bp_runs(grows)} for name in ('ee', 'eeevt', 'tfr')]
+
+
 def plans():
-    ps = _plans0() + api_plans()
+    ps = _plans0() + api_plans() + bp_plans()
     # a metamodel with the same names but other attribute types lives in the same process (adapter shadow_prelude)
     for p in ps:
         p['opt'] = dict(p.get('opt') or {}, shadow=True)
